@@ -60,6 +60,8 @@ pub struct RawWs {
 	rx: mpsc::UnboundedReceiver<Item>,
 	pub ended: Option<(u64, String)>,
 	reader: tokio::task::JoinHandle<()>,
+	/// while set, the reader task does not read from the connection (back-pressure on the server's writes)
+	paused: std::sync::Arc<std::sync::atomic::AtomicBool>,
 }
 
 #[derive(Debug)]
@@ -189,8 +191,13 @@ impl RawWs {
 		let (sender, mut receiver) = client.into_builder().finish();
 		let (tx, rx) = mpsc::unbounded_channel();
 		// soketto's `receive` is not cancel-safe: the receiver lives in its own task, timeouts apply to the channel.
+		let paused = std::sync::Arc::new(std::sync::atomic::AtomicBool::new(false));
+		let paused2 = paused.clone();
 		let reader = tokio::spawn(async move {
 			loop {
+				while paused2.load(std::sync::atomic::Ordering::SeqCst) {
+					tokio::time::sleep(Duration::from_millis(1)).await;
+				}
 				let mut data = Vec::new();
 				match receiver.receive(&mut data).await {
 					Ok(soketto::Incoming::Data(d)) => {
@@ -211,7 +218,7 @@ impl RawWs {
 				}
 			}
 		});
-		Ok(RawWs { sender, rx, ended: None, reader })
+		Ok(RawWs { sender, rx, ended: None, reader, paused })
 	}
 
 	pub async fn send_text(&mut self, s: &str) -> Result<(), String> {
@@ -277,6 +284,11 @@ impl RawWs {
 
 	pub fn is_ended(&self) -> bool {
 		self.ended.is_some()
+	}
+
+	/// Stop / resume reading from the connection (takes effect before the reader's next receive).
+	pub fn set_reading(&self, on: bool) {
+		self.paused.store(!on, std::sync::atomic::Ordering::SeqCst);
 	}
 
 	/// Send a close frame.
